@@ -392,7 +392,8 @@ Inductive query :=
 | QE (s : sel) (skip : list nat) (p : post)
 | QN (s : sel) (skip : list nat) (p : post)
 | QOrF (a b : sel) (skip : list nat)
-| QComplF (s : sel).
+| QComplF (s : sel)
+| QComplMany (ss : list sel).     (* complement_dofs(view1, view2, ...) and the dict form *)
 Definition ctxt := ((nat * nat * nat * nat * nat) * (nat * nat * nat * nat) * (list (list nat) * list (list nat) * list (list nat)) *
                     (list (list nat) * list (list nat) * bool) *
                     (list nat * list nat * list (list (nat * list nat)) * list (list (nat * list nat))))%type.
@@ -427,6 +428,15 @@ Definition run (c : ctxt * list query) : list (option (list nat)) :=
                                                      (get_facet_dofs D dofnames offs nd ed fd facets f2e dim3 B skip)))
         | _, _ => None
         end
+    | QComplMany ss =>
+        (fix go (l : list sel) (acc : list (list nat)) : option (list nat) :=
+           match l with
+           | [] => Some (complement_many (D_N D) acc)
+           | s :: r => match nF s with
+                       | Some F => go r (acc ++ [flatten D (get_facet_dofs D dofnames offs nd ed fd facets f2e dim3 F [])])
+                       | None => None
+                       end
+           end) ss []
     | QComplF s => option_map (fun F => complement (D_N D) (flatten D (get_facet_dofs D dofnames offs nd ed fd facets f2e dim3 F []))) (nF s)
     end) qs.
 Definition res_eqb := list_eqb (option_eqb nats_eqb).
@@ -449,7 +459,7 @@ def make_queries(rng, c, nq):
     b = c.basis
     out = []
     for _ in range(nq):
-        kind = ['F', 'F', 'F', 'E', 'N', 'or', 'compl'][int(rng.integers(7))]
+        kind = ['F', 'F', 'F', 'E', 'N', 'or', 'compl', 'complmany'][int(rng.integers(8))]
         skip = _name_sets(rng, c) if rng.random() < 0.3 else []
         cskip = cnats([c.name_id(x) for x in skip])
         pk = int(rng.integers(6))
@@ -497,6 +507,14 @@ def make_queries(rng, c, nq):
             out.append((f'(QOrF {a.coq} {d.coq} {cskip})',
                         (lambda a=a, d=d, kw=kw: (b.get_dofs(a.py, **kw) | b.get_dofs(d.py, **kw)).flatten()),
                         ('or', repr(a.py)[:40], repr(d.py)[:40], skip), {'on': 'F', 'ids': [a.ids, d.ids], 'skip': skip, 'pk': 0, 'nm': []}))
+        elif kind == 'complmany':
+            ss = [rand_selector(rng, c.n['F'], c.tagsF, c.predF, {'int', 'arr', 'default', 'pred', 'tag'}) for _ in range(int(rng.integers(2, 4)))]
+            as_dict = bool(rng.integers(2))
+            out.append(('(QComplMany ' + clist([x.coq for x in ss]) + ')',
+                        (lambda ss=ss, as_dict=as_dict: b.complement_dofs({f'k{i}': b.get_dofs(x.py) for i, x in enumerate(ss)}) if as_dict
+                         else b.complement_dofs(*[b.get_dofs(x.py) for x in ss])),
+                        ('complmany', 'dict' if as_dict else 'args', [repr(x.py)[:30] for x in ss]),
+                        {'on': 'F', 'ids': [x.ids for x in ss], 'skip': [], 'pk': 0, 'nm': [], 'compl': True}))
         else:
             s = rand_selector(rng, c.n['F'], c.tagsF, c.predF, {'int', 'arr', 'default', 'pred', 'tag', 'coll'})
             out.append((f'(QComplF {s.coq})', (lambda s=s: b.complement_dofs(b.get_dofs(s.py))), ('compl', repr(s.py)[:80]),
@@ -703,6 +721,34 @@ def oracle_context(ctx, c, rng):
     if got_p != want_p:
         ctx.fail('selector:node-predicate', f'get_dofs(nodes=predicate) on {type(m).__name__}/{c.name} ({m.p.shape[1]} points, {nvx} vertices) '
                  f'gives {got_p!r:.90} but the vertices satisfying the predicate carry {want_p!r:.60}', data)
+    # complement of several sets (positional and dict form) = complement of the union
+    nfx = m.facets.shape[1]
+    v1, v2, v3 = (b.get_dofs(np.array([int(rng.integers(nfx))], dtype=np.int32)) for _ in range(3))
+    union = set(v1.flatten().tolist()) | set(v2.flatten().tolist()) | set(v3.flatten().tolist())
+    want_c = sorted(set(range(b.N)) - union)
+    ctx.count(('complement-many', c.kind, c.name, m.t.tolist()), nontrivial=True)
+    for what, got in (('complement_dofs(a, b, c)', b.complement_dofs(v1, v2, v3).tolist()),
+                      ('complement_dofs(a.flatten(), b.flatten(), c.flatten())', b.complement_dofs(v1.flatten(), v2.flatten(), v3.flatten()).tolist()),
+                      ("complement_dofs({'x': a, 'y': b, 'z': c})", b.complement_dofs({'x': v1, 'y': v2, 'z': v3}).tolist())):
+        if got != want_c:
+            ctx.fail('complement:several-sets', f'{c.name} on {type(m).__name__}: {what} returns {len(got)} DOFs, the complement of the union has '
+                     f'{len(want_c)} (N = {b.N})', dict(data, call=what))
+    # predicates with boundaries_only: the predicate set intersected with the boundary set
+    pf, maskf = c.predF[0]
+    pn, maskn = c.predN[0]
+    bfac_ = [f for f in range(nfx) if m.f2t[1, f] == -1]
+    bnod_ = sorted({int(v) for f in bfac_ for v in np.asarray(m.facets)[:, f]})
+    for what, got, want in (
+            ('facets_satisfying(pred, boundaries_only=True)', m.facets_satisfying(pf, boundaries_only=True), np.intersect1d(np.nonzero(maskf)[0], bfac_)),
+            ('facets_satisfying(pred)', m.facets_satisfying(pf), np.nonzero(maskf)[0]),
+            ('nodes_satisfying(pred, boundaries_only=True)', m.nodes_satisfying(pn, boundaries_only=True), np.intersect1d(np.nonzero(maskn)[0], bnod_)),
+            ('nodes_satisfying(pred)', m.nodes_satisfying(pn), np.nonzero(maskn)[0])):
+        kw = 'nodes' if what.startswith('nodes') else 'facets'
+        g1 = b.get_dofs(**{kw: np.asarray(got, dtype=np.int32)}).flatten().tolist()
+        g2 = b.get_dofs(**{kw: np.asarray(want, dtype=np.int32)}).flatten().tolist()
+        if np.asarray(got).tolist() != np.asarray(want).tolist() or g1 != g2:
+            ctx.fail('selector:boundaries_only', f'{type(m).__name__}.{what} = {np.asarray(got).tolist()[:10]} but the predicate set '
+                     f'(intersected with the boundary set) is {np.asarray(want).tolist()[:10]}; get_dofs of the two differ', dict(data, call=what))
     # the empty list / tuple / set denotes the empty set
     for kw, val in (('facets', []), ('facets', ()), ('facets', set()), ('elements', []), ('elements', ()), ('nodes', [])):
         ctx.count(('empty', c.kind, c.name, kw, type(val).__name__), nontrivial=False)
